@@ -17,7 +17,6 @@ import (
 	"encoding/hex"
 	"fmt"
 	"sort"
-	"strings"
 	"testing"
 	"time"
 
@@ -73,12 +72,12 @@ func sorted(ids []sharing.ID) []sharing.ID {
 type zeroGroup struct {
 	name string
 	// run samples the zero share of every context (all of the same quorum) and applies the oracle
-	run func(x *engine.X, where string, ctxs []*session.Context)
+	run func(x *engine.X, cfg, where string, ctxs []*session.Context)
 }
 
 func mkZeroGroup[GE algebra.GroupElement[GE]](name string, g algebra.FiniteGroup[GE]) zeroGroup {
-	return zeroGroup{name: name, run: func(x *engine.X, where string, ctxs []*session.Context) {
-		x.Case("zero/" + name + "/" + where)
+	return zeroGroup{name: name, run: func(x *engine.X, cfg, where string, ctxs []*session.Context) {
+		x.Case(cfg + "/zero/" + name + "/" + where)
 		sum := g.OpIdentity()
 		for _, c := range ctxs {
 			sh, err := przs.SampleZeroShare(c, g)
@@ -108,6 +107,7 @@ var zeroGroups = []zeroGroup{
 // Oracles on a family of contexts that are supposed to describe the same (sub)quorum.
 
 type registry struct {
+	cfg    string            // configuration key (prefix of the inner-case keys)
 	seeds  map[string]string // hex(first 64 seed bytes) -> where it was seen (global: both sessions, all sub-contexts)
 	probes map[string]string // hex(transcript probe) -> where (per session: parent and every sub-quorum)
 }
@@ -192,13 +192,13 @@ func checkSession(x *engine.X, tag string, sr *sessionRun, reg *registry) (sid s
 	}
 	members := sorted(sr.ids)
 	reg.probes = map[string]string{} // transcript distinctness is demanded within one session
-	x.Case("session/" + tag)
+	x.Case(reg.cfg + "/session/" + tag)
 	if !agree(x, "honest", "session "+tag, ctxs, members) {
 		return "", false
 	}
 	reg.record(x, "session "+tag+" parent", ctxs, members)
 	for _, g := range zeroGroups {
-		g.run(x, "session "+tag+" parent", ctxList(ctxs, members))
+		g.run(x, reg.cfg, "session "+tag+" parent", ctxList(ctxs, members))
 	}
 
 	// every sub-quorum of size >= 2 (the full quorum included: a derived context, different from the parent)
@@ -214,7 +214,7 @@ func checkSession(x *engine.X, tag string, sr *sessionRun, reg *registry) (sid s
 			continue
 		}
 		where := fmt.Sprintf("session %s SubContext(%v)", tag, q)
-		x.Case(where)
+		x.Case(reg.cfg + "/" + where)
 		// each member derives from its own parent context, handing the set over in its own (creation) order
 		sub := map[sharing.ID]*session.Context{}
 		bad := false
@@ -241,7 +241,7 @@ func checkSession(x *engine.X, tag string, sr *sessionRun, reg *registry) (sid s
 		}
 		reg.record(x, where, sub, q)
 		for _, g := range zeroGroups {
-			g.run(x, where, ctxList(sub, q))
+			g.run(x, reg.cfg, where, ctxList(sub, q))
 		}
 	}
 	// deriving sub-contexts and sampling must not have disturbed the parents: they still agree
@@ -267,7 +267,7 @@ func reverse(ids []sharing.ID) {
 
 func seedPairs() int {
 	if engine.Thorough() {
-		return 4
+		return 8
 	}
 	return 1
 }
@@ -287,7 +287,7 @@ func honestBody(x *engine.X) {
 	A := runSession(ids, sessionStreams(seed, "A", "A", 0), useWire, nil)
 	B := runSession(ids, sessionStreams(seed, "B", "A", only), useWire, nil)
 
-	reg := &registry{seeds: map[string]string{}}
+	reg := &registry{cfg: fmt.Sprintf("%d/%s/%v/%d/%d", n, a.name, useWire, diff, sp), seeds: map[string]string{}}
 	sidA, okA := checkSession(x, "A", A, reg)
 	sidB, okB := checkSession(x, "B", B, reg) // same registry: seeds must also differ ACROSS the two sessions
 	if okA && okB {
@@ -310,7 +310,15 @@ func TestCheck(t *testing.T) {
 		"purego build of the library; group arithmetic itself is C14's subject",
 	)
 	engine.Explore(honestBody, engine.Opts{Name: "honest", Budget: engine.Budget(2*time.Minute, 15*time.Minute)})
-	engine.Explore(faultBody, engine.Opts{Name: "faults", Budget: engine.Budget(2*time.Minute, 20*time.Minute)})
+	sec := engine.Explore(faultBody, engine.Opts{Name: "faults", Budget: engine.Budget(2*time.Minute, 20*time.Minute)})
+	histMu.Lock()
+	keys := make([]string, 0, len(faultHist))
+	for k := range faultHist {
+		keys = append(keys, k)
+	}
+	sort.Strings(keys)
+	for _, k := range keys {
+		sec.Note("%6d x %s", faultHist[k], k)
+	}
+	histMu.Unlock()
 }
-
-var _ = strings.Join
